@@ -8,6 +8,7 @@ import QM.Port
 import QM.Lookup
 import QM.Proc
 import QM.InstallModel
+import QM.Fs
 
 /-! Line protocol of the model driver: the same operations as `src/verif_driver.rs` (answered by the
     model of the implementation) plus `spec_*` operations (answered by the specifications, used as
@@ -153,6 +154,18 @@ def step (line : String) : String :=
   | "unit" :: script => unitScript [] [] script
   | "convert" :: iu :: ord :: rest =>
       convertOp (iu == "1") (if ord == "-" then [] else (ord.splitOn ",").map String.toNat!) (pairsOf rest)
+  | "tree" :: nd :: rest =>
+      let n := nd.toNat!
+      let t : Cv.Tree := { searchDirs := (rest.take n).map hexd, files := pairsOf (rest.drop n) }
+      let r := Cv.runTree t
+      let svcs := r.services.filterMap fun (q, o) => match o with
+        | .ok svc => some (hexe q.path ++ "=" ++ hexe (Parse.printUnit svc))
+        | _ => none
+      let errs := r.services.filterMap fun (q, o) => match o with
+        | .err e => some (hexe q.path ++ "=" ++ errVariant e)
+        | _ => none
+      if r.services.any (fun (_, o) => match o with | .outOfModel => true | _ => false) then "out-of-model"
+      else s!"ok {r.loadErrors} {r.dropinErrors} [" ++ " ".intercalate svcs ++ "] [" ++ " ".intercalate errs ++ "]"
   | ["plan_links", f, t] => match Parse.parse parseEnv (hexd t) with
       | .ok u => "ok " ++ list ((Inst.planLinks (hexd f) u).flatMap fun (l, t) => [l, t])
       | .error _ => "err Unit"
